@@ -3220,7 +3220,29 @@ PIP_Solution_Node::solve(const PIP_Problem& pip,
         else {
           // t_node unfeasible, f_node feasible:
           // restore cs and aps into f_node (i.e., this).
-          PPL_ASSERT(f_node == this);
+          // NOTE: the recursive resolution of f_node may have stored
+          // constraints and artificial parameters into it, or may have
+          // replaced it by a decision node having both children.
+          const PIP_Decision_Node* const f_decision_node_p
+            = dynamic_cast<PIP_Decision_Node*>(f_node);
+          if (f_decision_node_p != nullptr
+              && f_decision_node_p->false_child != nullptr) {
+            // Do NOT merge: create a new decision node.
+            PIP_Tree_Node* const parent
+              = new PIP_Decision_Node(f_node->get_owner(), nullptr, f_node);
+            swap(parent->constraints_, cs);
+            swap(parent->artificial_parameters, aps);
+            parent->add_constraint(f_test, all_params);
+            return parent;
+          }
+          for (Constraint_System::const_iterator
+                 i = f_node->constraints_.begin(),
+                 i_end = f_node->constraints_.end(); i != i_end; ++i) {
+            cs.insert(*i);
+          }
+          aps.insert(aps.end(),
+                     f_node->artificial_parameters.begin(),
+                     f_node->artificial_parameters.end());
           swap(f_node->constraints_, cs);
           swap(f_node->artificial_parameters, aps);
           // Add f_test to constraints.
